@@ -53,7 +53,7 @@ def generate(tier, rng):
                 for start in gen.tree_labels(t):
                     for k in KINDS:
                         yield {"fam": "iter", "tree": t, "start": start, "kind": k, "filter_out": [],
-                               "stop": [], "maxlevel": None, "defaults": True, "cls": rng.choice(["nm", "light", "eq", "falsy"])}
+                               "stop": [], "maxlevel": None, "defaults": True, "cls": rng.choice(["nm", "light", "eq", "falsy", "shadow"])}
     # the iterator object as a one-pass stream: left early and resumed, explicit next(), two iter() handles
     for n in range(1, 5 if tier == "quick" else 6):
         for sh in gen.shapes(n):
@@ -62,7 +62,7 @@ def generate(tier, rng):
                 for mode in ("forbreak", "next", "twoiters"):
                     for cut in (0, 1, 2, n):
                         yield {"fam": "iter", "tree": t, "start": t[0], "kind": k, "filter_out": [], "stop": [],
-                               "maxlevel": None, "defaults": True, "cls": rng.choice(["nm", "light", "eq", "falsy"]),
+                               "maxlevel": None, "defaults": True, "cls": rng.choice(["nm", "light", "eq", "falsy", "shadow"]),
                                "consume": mode, "k": cut}
     for c in _big(tier, rng):
         yield c
@@ -75,7 +75,7 @@ def generate(tier, rng):
         for start in [t[0]] + rng.sample(labs, min(2, len(labs))):
             for k in KINDS:
                 c = {"fam": "iter", "tree": t, "start": start, "kind": k, "filter_out": [],
-                     "stop": [], "maxlevel": None, "defaults": rng.random() < 0.5, "cls": rng.choice(["nm", "light", "eq", "falsy"])}
+                     "stop": [], "maxlevel": None, "defaults": rng.random() < 0.5, "cls": rng.choice(["nm", "light", "eq", "falsy", "shadow"])}
                 if rng.random() < 0.3:
                     c["consume"] = rng.choice(["forbreak", "next", "twoiters"])
                     c["k"] = rng.randrange(0, n + 1)
@@ -89,7 +89,7 @@ def _big(tier, rng):
         for start in [t[0], dl[len(dl) // 2], dl[1] if len(dl) > 1 else t[0]]:
             for k in KINDS:
                 c = {"fam": "iter", "tree": t, "start": start, "kind": k, "filter_out": [], "stop": [], "maxlevel": None,
-                     "defaults": rng.random() < 0.5, "cls": rng.choice(["nm", "light", "eq", "falsy"])}
+                     "defaults": rng.random() < 0.5, "cls": rng.choice(["nm", "light", "eq", "falsy", "shadow"])}
                 if rng.random() < 0.3:
                     c["consume"] = rng.choice(["forbreak", "next", "twoiters"])
                     c["k"] = rng.randrange(0, gen.tree_size(t) + 1)
